@@ -213,6 +213,11 @@ impl<'lib> ProtoExporter<'lib> {
 //@   before /^        Ok\(playout\)$/
 //|         proof { assert(self.ctx@ =~= old(self).ctx@); }
 //@ end
+//@ fn layout21tetris/src/conv/proto.rs :: impl<'lib> ProtoExporter<'lib> :: fn export
+//@   ret r
+//@   spec
+//|     ensures r is Ok ==> lib_exp(r->Ok_0, *lib),
+//@ end
 //@ fn layout21tetris/src/conv/proto.rs :: impl<'lib> ProtoExporter<'lib> :: fn export_lib
 //@   ret r
 //@   let plib : tproto::Library
@@ -378,6 +383,11 @@ pub proof fn lemma_lk_ext(m0: CellMap, pcells: Seq<tproto::Cell>, c1: Seq<Ptr<Ce
 {
     if n > 0 { lemma_lk_ext(m0, pcells, c1, c2, (n - 1) as nat, q); }
 }
+/// model of #[derive(Default)]: empty error stack, empty cell map
+impl Default for ProtoLibImporter {
+    #[verifier::external_body]
+    fn default() -> (r: Self) ensures r.ctx@.len() == 0, forall|q: Seq<char>| #[trigger] r.cell_map.lookup(q) is None { unimplemented!() }
+}
 impl ProtoLibImporter {
     #[verifier::external_body]
     fn fail<T, M>(&self, msg: M) -> (r: LayoutResult<T>) ensures r is Err { Err(LayoutError { }) }
@@ -386,6 +396,11 @@ impl ProtoLibImporter {
     fn unwrap<T, M>(&self, opt: Option<T>, msg: M) -> (r: LayoutResult<T>)
         ensures opt is Some ==> r == Ok::<T, LayoutError>(opt->0), opt is None ==> r is Err,
     { unimplemented!() }
+//@ fn layout21tetris/src/conv/proto.rs :: impl ProtoLibImporter :: fn import
+//@   ret r
+//@   spec
+//|     ensures r is Ok ==> exists|m0: CellMap, m1: CellMap| (forall|q: Seq<char>| #[trigger] m0.lookup(q) is None) && #[trigger] lib_imp(r->Ok_0, *plib, m0, m1),
+//@ end
 //@ fn layout21tetris/src/conv/proto.rs :: impl ProtoLibImporter :: fn import_lib
 //@   ret r
 //@   sub R6 /for cell in &plib\.cells \{/ => for cell in plib.cells.iter() {
@@ -558,6 +573,80 @@ pub proof fn theorem_export_resolvable(g: tproto::Library, lib: Library, m0: Cel
     assert(cell_exp(g.cells@[j], *order[j].v));
     lemma_lk_some(m0, g.cells@, cells, i as nat, j);
 }
+// ---- round trip: a pure consequence of the two converters' contracts ----
+pub open spec fn steps_same(a: Seq<PrimPitches>, b: Seq<PrimPitches>) -> bool { a.len() == b.len() && forall|i: int| 0 <= i < a.len() ==> (#[trigger] a[i]).num == b[i].num }
+pub open spec fn inst_same(a: Instance, b: Instance) -> bool {
+    &&& a.inst_name@ == b.inst_name@ &&& a.reflect_horiz == b.reflect_horiz &&& a.reflect_vert == b.reflect_vert
+    &&& a.loc is Abs && b.loc is Abs && a.loc->Abs_0.x.num == b.loc->Abs_0.x.num && a.loc->Abs_0.y.num == b.loc->Abs_0.y.num
+    &&& (*a.cell.v).name@ == (*b.cell.v).name@
+}
+pub open spec fn layout_same(a: Layout, b: Layout) -> bool {
+    &&& a.name@ == b.name@ &&& a.metals == b.metals &&& steps_same(a.outline.x@, b.outline.x@) &&& steps_same(a.outline.y@, b.outline.y@)
+    &&& a.instances@.len() == b.instances@.len() &&& forall|i: int| 0 <= i < a.instances@.len() ==> inst_same(*(#[trigger] a.instances@[i]).v, *b.instances@[i].v)
+    &&& a.assignments@.len() == b.assignments@.len() &&& forall|i: int| 0 <= i < a.assignments@.len() ==> (#[trigger] a.assignments@[i]).net@ == b.assignments@[i].net@ && a.assignments@[i].at == b.assignments@[i].at
+    &&& a.cuts@.len() == b.cuts@.len() &&& forall|i: int| 0 <= i < a.cuts@.len() ==> #[trigger] a.cuts@[i] == b.cuts@[i]
+}
+pub open spec fn cell_same(a: Cell, b: Cell) -> bool { a.name@ == b.name@ && (a.layout is Some <==> b.layout is Some) && (a.layout is Some ==> layout_same(a.layout->0, b.layout->0)) }
+/// over an initially empty map, a successful lookup after `n` messages yields the cell of a message (among the first n) with that name
+pub proof fn lemma_lk_hit(m0: CellMap, pcells: Seq<tproto::Cell>, cells: Seq<Ptr<Cell>>, n: nat, q: Seq<char>)
+    requires forall|x: Seq<char>| #[trigger] m0.lookup(x) is None, lk_after(m0, pcells, cells, n, q) is Some,
+    ensures exists|j: int| 0 <= j < n && (#[trigger] pcells[j]).name@ == q && lk_after(m0, pcells, cells, n, q) == Some(cells[j]),
+    decreases n
+{
+    if n > 0 && pcells[n - 1].name@ != q {
+        lemma_lk_hit(m0, pcells, cells, (n - 1) as nat, q);
+        let j = choose|j: int| 0 <= j < n - 1 && (#[trigger] pcells[j]).name@ == q && lk_after(m0, pcells, cells, (n - 1) as nat, q) == Some(cells[j]);
+        assert(0 <= j < n && pcells[j].name@ == q);
+    } else if n > 0 { assert(pcells[n - 1].name@ == q); }
+}
+pub proof fn lemma_layout_roundtrip(a: Layout, g: tproto::Layout, b: Layout, m: CellMap, m0: CellMap, pcells: Seq<tproto::Cell>, cells: Seq<Ptr<Cell>>, n: nat)
+    requires layout_exp(g, a), layout_imp(b, g, m), map_is(m, m0, pcells, cells, n), forall|x: Seq<char>| #[trigger] m0.lookup(x) is None,
+        n <= cells.len(), n <= pcells.len(), forall|j: int| 0 <= j < n ==> (*(#[trigger] cells[j]).v).name@ == pcells[j].name@,
+    ensures layout_same(a, b),
+{
+    assert forall|i: int| 0 <= i < a.instances@.len() implies inst_same(*(#[trigger] a.instances@[i]).v, *b.instances@[i].v) by {
+        assert(inst_exp(g.instances@[i], *a.instances@[i].v));
+        assert(inst_imp(*b.instances@[i].v, g.instances@[i], m));
+        let q = g.instances@[i].cell->0.to->0->Local_0@;
+        assert(m.lookup(q) == lk_after(m0, pcells, cells, n, q));
+        lemma_lk_hit(m0, pcells, cells, n, q);
+    }
+    assert forall|i: int| 0 <= i < a.assignments@.len() implies (#[trigger] a.assignments@[i]).net@ == b.assignments@[i].net@ && a.assignments@[i].at == b.assignments@[i].at by {
+        assert(assn_exp(g.assignments@[i], a.assignments@[i])); assert(assn_imp(b.assignments@[i], g.assignments@[i]));
+    }
+    assert forall|i: int| 0 <= i < a.cuts@.len() implies #[trigger] a.cuts@[i] == b.cuts@[i] by {
+        assert(cross_exp(g.cuts@[i], a.cuts@[i])); assert(cross_imp(b.cuts@[i], g.cuts@[i]));
+    }
+    assert forall|i: int| 0 <= i < a.outline.x@.len() implies (#[trigger] a.outline.x@[i]).num == b.outline.x@[i].num by { assert(g.outline->0.x@[i] == a.outline.x@[i].num); assert(g.outline->0.x@[i] == b.outline.x@[i].num); }
+    assert forall|i: int| 0 <= i < a.outline.y@.len() implies (#[trigger] a.outline.y@[i]).num == b.outline.y@[i].num by { assert(g.outline->0.y@[i] == a.outline.y@[i].num); assert(g.outline->0.y@[i] == b.outline.y@[i].num); }
+}
+/// THEOREM (C19, first sentence): whatever `export` produced for `lib`, whatever `import` then built from it (starting from an empty cell
+/// map) has the library's name and, cell for cell along the export's dependency ordering, the same name, outline steps, metal count,
+/// instances (name, target cell name, location, reflections), assignments and cuts
+pub proof fn theorem_roundtrip(lib: Library, g: tproto::Library, lib2: Library, m0: CellMap, m1: CellMap)
+    requires lib_exp(g, lib), lib_imp(lib2, g, m0, m1), forall|x: Seq<char>| #[trigger] m0.lookup(x) is None,
+    ensures lib2.name@ == lib.name@,
+        exists|order: Seq<Ptr<Cell>>| is_dep_ordering(order, lib.cells@, |c: Ptr<Cell>| cell_deps(c)) && #[trigger] cells_same(order, lib2.cells@),
+{
+    let order = choose|order: Seq<Ptr<Cell>>| is_dep_ordering(order, lib.cells@, |c: Ptr<Cell>| cell_deps(c)) && #[trigger] cells_exp(g.cells@, order);
+    let cs = lib2.cells@; let pc = g.cells@;
+    assert forall|i: int| 0 <= i < order.len() implies cell_same(*(#[trigger] order[i]).v, *cs[i].v) by {
+        assert(cell_exp(pc[i], *order[i].v));
+        assert(cell_imported(cs, pc, m0, i));
+        let m = choose|m: CellMap| map_is(m, m0, pc, cs, i as nat) && #[trigger] cell_imp(*cs[i].v, pc[i], m);
+        if pc[i].layout is Some {
+            assert forall|j: int| 0 <= j < i implies (*(#[trigger] cs[j]).v).name@ == pc[j].name@ by {
+                assert(cell_imported(cs, pc, m0, j));
+            }
+            lemma_layout_roundtrip((*order[i].v).layout->0, pc[i].layout->0, (*cs[i].v).layout->0, m, m0, pc, cs, i as nat);
+        }
+    }
+    assert(cells_same(order, cs));
+}
+pub open spec fn cells_same(order: Seq<Ptr<Cell>>, cells: Seq<Ptr<Cell>>) -> bool { order.len() == cells.len() && forall|i: int| 0 <= i < order.len() ==> cell_same(*(#[trigger] order[i]).v, *cells[i].v) }
+proof fn canary_roundtrip(lib: Library, g: tproto::Library, lib2: Library, m0: CellMap, m1: CellMap)
+    requires lib_exp(g, lib), lib_imp(lib2, g, m0, m1), forall|x: Seq<char>| #[trigger] m0.lookup(x) is None, g.cells@.len() == 2, g.cells@[1].layout is Some, g.cells@[1].layout->0.instances@.len() == 1,
+    ensures false {}
 proof fn canary_lib_exp(g: tproto::Library, lib: Library) requires lib_exp(g, lib), lib.cells@.len() == 2, g.cells@[1].layout is Some ensures false {}
 proof fn canary_lib_imp(lib: Library, plib: tproto::Library, m0: CellMap, m1: CellMap) requires lib_imp(lib, plib, m0, m1), plib.cells@.len() == 2, plib.cells@[1].layout is Some ensures false {}
 proof fn canary_dims(v: Seq<i64>, p: Seq<PrimPitches>) requires dims_eq(v, p), p.len() == 2 ensures false {}
